@@ -9,8 +9,7 @@ PROPS = {
         bounded_note='Kani stand-ins for detach / eq_with / to_bytes / bytestr / to_bytes_with_padding / to_hex_string: 3-byte backing '
                      'buffer with symbolic contents, concrete ranges S..E from the stated index sets; labelled BOUNDED, not counted as proved',
         assumed_backed_by={'Bitstr::detach': 'c04_detach*'},
-        not_decided=['from_hex_str (chars(): outside Verus, Kani on String parsing too heavy)',
-                     'ownership situations are covered by contracts quantifying over any (range, buffer) pair, not by enumerating histories'],
+        not_decided=['bytestr in Verus (returns a Cow; bounded Kani stand-in)', 'from_bin_str (used by tests only)', 'bit values of bitstr-and/or/xor (thin contract: lengths)'],
         technique='Verus contracts (view() = bit sequence, type invariant) on functions extracted from src/bitstr.rs each run; Kani bounded stand-ins for adapter-chain functions',
         level_text='Every obligation is a deductive proof over all buffer lengths, alignments, ownership-independent '
                    'views and stale bits: each bit-string operation is specified against the plain bit sequence view() '
@@ -50,8 +49,7 @@ PROPS = {
                    'so by induction k backward steps undo k forward steps. Assumed: the native-word contract for words called through a function pointer (call_native: keeps bases/ip, changes are '
                    'undoable) - PROVED for the ~60 native words that are themselves under contract (arithmetic, collection, cursor, stack words), backed by the frame scan for the rest; '
                    'termination of the rnext loop is not proved; run/next (closures capturing &mut self) are not under contract; rpds/std contracts; derive(Clone) is structural.',
-        not_decided=['native words not under contract are covered only by the assumed native-word contract + frame scan',
-                     'termination of rnext', 'run / next wrappers (they only add error-location bookkeeping around fetch_and_run)'],
+        not_decided=['native words not under contract are covered only by the assumed native-word contract + frame scan', 'termination of rnext'],
     ),
     'C14': dict(
         title='Resource limits are hard bounds and hitting one is recoverable',
@@ -74,9 +72,8 @@ PROPS = {
         technique='Verus: each primitive and fetch_and_run has ONE machine-state postcondition that does not mention whether recording is on',
         level_text='Partial. Proved: recording on/off cannot change the machine - every primitive\'s successor machine is the same spec function of '
                    'the predecessor in both modes (no case split on is_recording in any ensures), including over_data whose reverse path re-enters drop_data.',
-        level_note='NOT decided: eval == compile+run == compile+step* (run/next are closures over &mut self, outside Verus; State-level harnesses are out of Kani\'s reach). '
-                   'Listed under not_decided in the evidence.',
-        not_decided=['equivalence of the drive modes eval / compile+run / compile+step*'],
+        level_note='run and next are under contract (Rcomb for their closures): run is next iterated (run_steps chain), both leave the ip on the first failing instruction with the error context of that ip. NOT decided: eval == compile+run (build1 compiles and, in meta mode, runs; its model contract is assumed), termination of run.',
+        not_decided=['eval == compile + run', 'termination of run (programs need not terminate)'],
     ),
     'C16': dict(
         title='The lexer is total, loses no text, and reads literals as written',
@@ -138,9 +135,8 @@ PROPS = {
                    'multi-byte characters) and every token position: token_location reports line = number of line feeds before the token, col = number of characters '
                    'between the start of its line and the token, whole_line = exactly the token\'s line without its line break, token = the token itself, and the slice it takes is '
                    'inside the text on character boundaries (no panic).',
-        level_note='Assumed (dependency contracts): arcstr Substr::range/parent/substr, str::char_indices yields (byte offset, char) in order, token_filename returns the first source with the parent\'s text. '
-                   'NOT decided: that build-time errors carry the failing token (next_name and all immediate words).',
-        not_decided=['build-time error token for every immediate word', 'token_filename (iterator closure chain, assumed)'],
+        level_note='Assumed (dependency contracts): arcstr Substr::range/parent/substr, str::char_indices yields (byte offset, char) in order. token_filename, build0 (the location of a build-time error is that of last_token), run / next (the location of a run-time error is the debug-map entry of the failing ip), include / require (included text becomes a source under the name of its path) and the printer of locations are verified. NOT decided: that every immediate word leaves last_token on the failing token.',
+        not_decided=['that every immediate word leaves last_token on the failing token'],
     ),
     'C01': dict(
         title='Structured control flow compiles to bytecode that means what the source says',
@@ -155,11 +151,8 @@ PROPS = {
                    'behind the emitted jump; until/repeat: back to begin, breaks and while behind the loop; loop: Loop->body, Do and breaks->behind the loop; '
                    'endcase: every endof jump to the current origin - touching no other cell, and the panic!("not a jump instruction") is unreachable; '
                    '(3) the VM primitives the opcodes are built from (loop_next, do_init, push/pop loop) against their machine-state functions.',
-        level_note='take_first_cond_flow is verified after rewrite rule R15 (reversed-range `for` with `continue` -> equivalent `while`). NOT decided: that composing the layers over an arbitrary nesting equals a structural evaluation '
-                   '(induction over program structure through build1 and 250 native words); word definitions/locals allocation; per-opcode functional '
-                   'semantics of fetch_and_run beyond the reverse/limit contract.',
-        not_decided=['composition of the three layers over arbitrary nestings (compiler correctness proper)',
-                     'definitions, redefinition, recursion, locals allocation'],
+        level_note='take_first_cond_flow is verified after rewrite rule R15. Also under contract: literals, name resolution (build_word, dict lookups), variables, locals, definitions (: ; late immediate defined), the literal brackets, foreach, the compile loop build1 (unit build) and the wiring of 46 control / definition words. NOT decided: that composing the layers over an arbitrary nesting equals a structural evaluation (induction over program structure through build1 and the native words); recursion; what immediate words do when run by build_word (run_immediate is assumed).',
+        not_decided=['composition of the layers over arbitrary nestings (compiler correctness proper)', 'recursion', 'run_immediate (assumed)'],
     ),
     'C10': dict(
         title='A source that fails to build has no effect on anything submitted afterwards',
@@ -201,10 +194,8 @@ PROPS = {
                    'dividend, a zero divisor (int or real /, int rem) is DivisionByZero, MIN/-1 wraps, neg/abs of MIN is IntegerOverflow; comparisons, min/max, '
                    'band/bor/bxor/bnot, bsl/bsr for counts 0..127, zero?/positive?/negative?, and/or/xor/not return the stated function of the tag-stripped operands; '
                    'non-numeric or mixed operands give a TypeErrorMsg whose value is one of the two operands; exactly the operands are consumed, results carry no tags; no panics.',
-        level_note='IEEE-754 arithmetic itself is NOT verified (R7: f64 operators are replaced by uninterpreted helpers; which operator is applied to which operands in which order IS checked). '
-                   'Assumed std contracts: i128::{checked_neg, checked_abs, wrapping_div, wrapping_rem, count_ones}; vstd specs of wrapping_add/sub/mul/shl/shr, Ord::min/max. '
-                   'The six comparison words and `random` are closures/external inside `load` and are not under contract (compare_cells, which they wrap, is).',
-        not_decided=['IEEE semantics of the real operations', 'popcnt value (only its range)', 'the comparison closures in load() beyond compare_cells'],
+        level_note="IEEE-754 arithmetic itself is NOT verified (R7: f64 operators are replaced by uninterpreted helpers; which operator is applied to which operands in which order IS checked). Assumed std contracts: i128::{checked_neg, checked_abs, wrapping_div, wrapping_rem, count_ones}; vstd specs of wrapping_add/sub/mul/shl/shr, Ord::min/max. The six comparison closures of the word table are lifted (Rword) and verified; every function binding of the table carries its callee's contract; `random` has a thin contract (one real is pushed).",
+        not_decided=['IEEE semantics of the real operations', 'popcnt value (only its range)', 'the value random pushes'],
     ),
     'C13': dict(
         title='Tags never change what a value does',
@@ -212,27 +203,22 @@ PROPS = {
         kani_groups=[],
         design_ref='DESIGN.md section 5 / C13',
         technique='Verus: every typed accessor of src/cell.rs is specified as a function of strip(cell) (the value without its tag wrapper); every word under contract is specified over strip(arg) only',
-        level_text='Proved for the functions under contract: value() == strip; to_bool/cond_true/to_xint/to_real/to_isize/to_usize/as_map/to_map/vec/to_vec/to_xstr/bitstr/to_bitstr/to_fn/to_any '
-                   'succeed or fail according to strip(c) only and return the payload of strip(c); with_tags attaches the map to strip(c) without nesting; tags() reads the wrapper only. '
-                   'All arithmetic/logic words compute from strip(operands) and their results are never WithTag cells.',
-        level_note='Words not under contract (collection words, printing, bit-string words) are NOT covered; D18 (get/insert/remove match the raw cell) is outside the functions under contract here.',
-        not_decided=['words outside src/arith.rs and the accessors of src/cell.rs'],
+        level_text='Proved for the functions under contract: value() == strip; the typed accessors of src/cell.rs succeed or fail according to strip(c) only and return the payload of strip(c); with_tags / insert_tag / remove_tag / get_tag / tags are a map attached to strip(c); all arithmetic, collection, cursor, encoding and bit-string words compute from strip(operands) and their results are never WithTag cells; the five tag words; the formatting-tag words (they replace the #fmt tag of the top value and nothing else); the printing words; the printer arms for tagged values (the value alone, or value + tags when the flags ask).',
+        level_note='D18 (get/insert/remove matched the raw cell) was found and repaired here. NOT decided: words that are not under contract (DESIGN section 9 item 5).',
+        not_decided=['words not under contract'],
     ),
     'C12': dict(
         title='Maps, vectors and strings obey collection laws under the language\'s equality',
         verus_units=['collections', 'cell', 'state', 'compile'],
         kani_groups=['state_idx.rs'],
         design_ref='DESIGN.md section 5 / C12',
-        technique='Verus contracts on eq/partial_cmp/cmp of Cell and on relative_index/slicing_index/vector_get/nth/get/push/insert/remove/length against Seq / assumed-map models; '
-                  'Kani full-domain proofs of the two index helpers',
+        technique='Verus contracts on eq/partial_cmp/cmp of Cell and on the collection words (nth get push insert remove length slice collect unbox concat join equal? reverse sort, the vector / map literal builders, foreach_init / foreach_next / I J K, the run-time helpers of let) against Seq / assumed-map models; Kani full-domain proofs of the two index helpers',
         level_text='Partial. Proved for all values: equal? is same-type-and-equal-payload and ignores tags; for integer and string keys the key order agrees with equal?; nth/get agree with '
                    'the sequence model for EVERY index including negative ones and the i128 extremes (out of range is an error, never another element); push builds a new vector and leaves '
                    'its operand alone; get/insert/remove apply the map operation to the tag-stripped collection and the given key. Known finding D17 (reported as KNOWN-FINDING): the key order '
                    'returns Equal for values of different or non-scalar types, so such keys collide.',
-        level_note='Assumed: rpds Vector/RedBlackTreeMap are a persistent sequence / a map under the key order (their operations have assumed contracts); equality/order of arcstr strings, '
-                   'bit-strings and rpds collections. NOT decided: slice, reverse, sort, collect, unbox, concat, join (iterator adapter chains: outside Verus, Cell-level: outside Kani), foreach; '
-                   'persistence of collections is a property of rpds.',
-        not_decided=['slice/reverse/sort/collect/unbox/concat/join/foreach', 'persistence (rpds)', 'map literal / builder words'],
+        level_note='Assumed: rpds Vector/RedBlackTreeMap are a persistent sequence / a map under the key order (their operations have assumed contracts); equality/order of arcstr strings, bit-strings and rpds collections; single iterator expressions (skip/take, chars(), rev(), sort) are routed through helpers with their assumed std meaning, so `reverse` and `sort` decide the stack discipline and that exactly that expression is applied, not the expression. Persistence of collections is a property of rpds.',
+        not_decided=['the meaning of the single std expressions behind reverse / sort / slice (assumed helpers)', 'persistence (rpds)'],
     ),
     'C06': dict(
         title='Parsing cursor: a read returns exactly the requested bits and advances that far',
@@ -261,8 +247,8 @@ PROPS = {
         level_text='Bit-string layer, proved unbounded: reading |a| bits from a++b returns a and leaves b, lengths add up (so by induction any field list parses back). '
                    'Kani family: three integer fields packed, concatenated and parsed back in the same byte order return the values (mod width / sign-extended) and leave 0 bits, '
                    'for widths that put the 2nd and 3rd field at every bit alignment. Word layer: uN!/iN!/int!/uint! push a bit-string of exactly n bits denoting the value; bitstr-append concatenates.',
-        level_note='NOT decided: >bitstr over nested vectors (rpds iteration), emit/output/output-length (update_var closure), strings and byte lists, floats in the composition family.',
-        not_decided=['>bitstr (bitstr_concat)', 'emit / output / output-length', 'float and string fields'],
+        level_note='>bitstr (bitstr_concat, recursive over nested lists), emit / output / output-length, float words and the wiring of all packing words are under contract (see DESIGN section 5 / C07). NOT decided: that a whole record packed by an arbitrary sequence of words parses back (the composition over field lists; append_then_read is its inductive step), output to the process stdout.',
+        not_decided=['composition over arbitrary field lists (only the inductive step and a Kani family of three fields)', 'output to stdout'],
     ),
     'C08': dict(
         title='No source text, input or API call sequence can crash the interpreter',
@@ -273,8 +259,7 @@ PROPS = {
         level_text='Every function that is verified in any unit carries the implicit safety obligations (no overflow over mathematical integers, indices in bounds, unwrap on Some/Ok only, '
                    'no division by zero, panic!/unreachable! unreachable) under its stated precondition; this property\'s obligation set is the union over all units. '
                    'Nothing is claimed for functions not under contract (listed in DESIGN.md).',
-        level_note='Preconditions that encode modest sizes (code length < 2^30, bit lengths that do not overflow usize) are assumptions of the property itself. '
-                   'Functions outside the contract set (lexer, formatting, file I/O, most native words) are not covered.',
+        level_note='Preconditions that encode modest sizes (code length < 2^30, bit lengths that do not overflow usize) are assumptions of the property itself. Recursion depth is not modelled by either verifier (deeply nested values overflow the native stack: observation in KNOWN_FINDINGS.txt). Functions outside the contract set are listed in DESIGN section 9 item 5 (dump text, enum words except the field counter, ~), see, .s, repl.rs, file.rs, the C API, d2_plugin.rs except its pixel index).',
         not_decided=['every function not under contract'],
     ),
 }
